@@ -481,16 +481,18 @@ func (w *c01world) recordBN(node int, atts []*eth2spec.VersionedAttestation) {
 			for i := range w.cl.vals[:w.nvals] {
 				v := &w.cl.vals[i]
 				switch {
+				case a.Version < eth2spec.DataVersionElectra:
+					// before electra the beacon node is handed the bare attestation: the attester is named by the committee index
+					// and the position bit (the validator index field is not part of what is submitted)
+					if bits, err := a.AggregationBits(); err == nil && data.Index == v.commIdx && bits.Len() > v.vci && bits.BitAt(v.vci) {
+						who = v
+					}
 				case a.ValidatorIndex != nil:
 					if *a.ValidatorIndex == v.valIdx {
 						who = v
 					}
-				case a.Version >= eth2spec.DataVersionElectra:
-					if a.Electra != nil && a.Electra.CommitteeBits.BitAt(uint64(v.commIdx)) {
-						who = v
-					}
 				default:
-					if data.Index == v.commIdx {
+					if a.Electra != nil && a.Electra.CommitteeBits.BitAt(uint64(v.commIdx)) {
 						who = v
 					}
 				}
@@ -616,7 +618,8 @@ func c01run(t *testing.T, sc c01script) (ex c01exec) {
 			}
 			if sc.Byz >= 0 && !byzUsed {
 				// the equivocating node additionally sends a partial signature, made with its own share, over other data
-				menu = append(menu, act{"byz-all", 0}, act{"byz-one", 0}, act{"byz-badsig", 0}, act{"byz-relabel", 0}, act{"byz-relabel", 1})
+				menu = append(menu, act{"byz-all", 0}, act{"byz-one", 0}, act{"byz-badsig", 0}, act{"byz-relabel", 0}, act{"byz-relabel", 1},
+					act{"byz-unsigned", 0}, act{"byz-unsigned", 1}, act{"byz-unsigned", 2})
 			}
 			c := 0
 			if step < len(sc.Choices) {
@@ -696,6 +699,51 @@ func c01run(t *testing.T, sc c01script) (ex c01exec) {
 					}
 				}
 				ex.trace = append(ex.trace, fmt.Sprintf("BYZ relabel-flood(%d)", a.arg))
+			case "byz-unsigned":
+				// a GENUINE partial signature of the node's own share over the data another node proposes (valid for the receive-side
+				// verifier), in an object whose fields outside the signing root are of the sender's choosing: validator index of
+				// another / of no validator (arg 0 / 1), other aggregation and committee bits (arg 2)
+				byzUsed = true
+				for _, v := range cl.vals[:w.nvals] {
+					par, err := w.signPartialFor(v, sc.Byz+1, w.dataFor(w.nodes[(sc.Byz+1)%sc.N].cand, v))
+					if err != nil {
+						continue
+					}
+					att := par.SignedData.(core.VersionedAttestation)
+					other := eth2p0.ValidatorIndex(999)
+					if a.arg == 0 {
+						other = cl.vals[(int(v.vci)/2+1)%2].valIdx // the other validator of the cluster
+						if other == v.valIdx {
+							other = cl.vals[1].valIdx
+						}
+					}
+					switch {
+					case a.arg <= 1:
+						att.ValidatorIndex = &other
+					case att.Electra != nil:
+						cb := bitfield.NewBitvector64()
+						cb.SetBitAt(uint64(v.commIdx)+1, true)
+						bits := bitfield.NewBitlist(8)
+						bits.SetBitAt(v.vci+1, true)
+						att.Electra.CommitteeBits, att.Electra.AggregationBits = cb, bits
+					case att.Deneb != nil:
+						bits := bitfield.NewBitlist(8)
+						bits.SetBitAt(v.vci+1, true)
+						att.Deneb.AggregationBits = bits
+					}
+					set, err := core.ParSignedDataSetToProto(core.ParSignedDataSet{v.corePK: core.ParSignedData{SignedData: att, ShareIdx: sc.Byz + 1}})
+					if err != nil {
+						continue
+					}
+					b, _ := proto.Marshal(&pbv1.ParSigExMsg{Duty: core.DutyToProto(duty), DataSet: set})
+					frame := append(c01uvarint(uint64(len(b))), b...)
+					for x := 0; x < sc.N; x++ {
+						if x != sc.Byz {
+							w.net.Inject(cl.peerIDs[sc.Byz], cl.peerIDs[x], "/charon/parsigex/2.0.0", frame)
+						}
+					}
+				}
+				ex.trace = append(ex.trace, fmt.Sprintf("BYZ genuine-signature-other-unsigned-fields(%d)", a.arg))
 			case "byz-all", "byz-one", "byz-badsig":
 				byzUsed = true
 				par, err := w.signPartial(sc.Byz+1, c01attData(0x66))
@@ -765,9 +813,40 @@ func c01pkt(verb string, w *c01world, p *fakenet.Packet) string {
 	return fmt.Sprintf("%s %s %d->%d #%d", verb, proto, idx(p.From), idx(p.To), p.Seq)
 }
 
+// c01check judges one execution. A violation that exists only in what the beacon nodes were handed (the same objects are
+// fine at Broadcast and AggSigDB.Store, where they are attributed by the set's public key) in an execution whose Byzantine
+// node sent a genuine partial signature inside an object with other unsigned fields is classified by that cause.
 func c01check(ex c01exec) (sigs, descs []string) {
-	roots := map[string]map[[32]byte]bool{}
+	sigs, descs = c01checkEmits(ex.emits)
+	byzUnsigned := false
+	for _, l := range ex.trace {
+		byzUnsigned = byzUnsigned || strings.HasPrefix(l, "BYZ genuine-signature-other-unsigned-fields")
+	}
+	if !byzUnsigned || len(sigs) == 0 {
+		return
+	}
+	var inner []c01emit
 	for _, e := range ex.emits {
+		if e.where != "beacon-node" {
+			inner = append(inner, e)
+		}
+	}
+	in, _ := c01checkEmits(inner)
+	has := map[string]bool{}
+	for _, s := range in {
+		has[s] = true
+	}
+	for i, s := range sigs {
+		if !has[s] {
+			sigs[i] = s + " cause=peer-chosen-unsigned-attestation-fields"
+		}
+	}
+	return
+}
+
+func c01checkEmits(emits []c01emit) (sigs, descs []string) {
+	roots := map[string]map[[32]byte]bool{}
+	for _, e := range emits {
 		if !e.valid {
 			sigs = append(sigs, "kind=invalid-group-signature-emitted where="+e.where)
 			descs = append(descs, fmt.Sprintf("node %d handed an object to %s for %s/%s whose signature does not verify under the validator's group key for the object's own signing root", e.node, e.where, e.dutyStr, e.pubkey))
